@@ -27,7 +27,7 @@ CHECKS = {
          "Single-fault documents (unknown id / misplaced element / oversized child / size above limit) are parsed under all 8 tolerance subsets: the non-tolerated fault must be reported with its own error kind at the element (offset, id, size) after exactly the valid prefix, a tolerated kind must never occur; 4*10^9+1 byte declarations are rejected under the untouched default limit in all settings; on arbitrary inputs from a root element the strict Ok items (with offsets) are a prefix of every more tolerant parse.",
          "hierarchy faults are injected into all-known-size documents", "DESIGN.md §5 C13"),
  "C14": ("fault_enumeration", "runtime monitor: junk insertion at every tag boundary, next()/try_recover()/next() driven on the real iterator, differential against the undamaged parse",
-         "At every tag boundary of valid known-size documents a junk run (1-40 bytes that cannot start any id of the specification) is inserted; when the following tag still fits its known-size ancestors the items before are unchanged, exactly one error is reported, try_recover() succeeds and the remaining items equal the undamaged parse shifted by the junk length; always: try_recover() never panics, never moves backwards and fails only with EOF/ReadError.",
+         "At every tag boundary of valid documents a junk run (1-40 bytes that cannot start any id of the specification) is inserted; when the following tag still fits its known-size ancestors the items before are unchanged, exactly one error is reported, try_recover() succeeds and the remaining items equal the undamaged parse shifted by the junk length; always: try_recover() never panics, never moves backwards and fails only with EOF/ReadError.",
          "layout from the reference decoder decides the precondition", "DESIGN.md §5 C14"),
  "C17": ("exploration", "runtime monitor: counting global allocator measuring per-call heap growth and largest request; allocation ceiling turning runaway requests into reports; valgrind massif cross-check of curated cases (thorough)",
          "Hostile headers (declared sizes 0..2^56-2 in every width, all element types, root / known / unknown parents, payload absent or partial) are parsed under limits {0,5,4096,64K,1M,default}, capacities {16,4096,65536} and all tolerance subsets while the counting allocator measures every next()/try_recover(): growth and largest request stay within 16*max(B,capacity)+64KiB, an element within the limit is not rejected by the size check, over-limit elements are rejected by a header check, no panic/overflow; a long valid stream is measured over the whole parse (memory creep); in the thorough tier eight curated cases are replayed under valgrind massif and must satisfy the same bound.",
@@ -57,7 +57,7 @@ CHECKS = {
          "Random call histories with known- and unknown-size masters interleaved (cut at random points, optional flush) run on the real writer with a recording sink; after every call the monitor checks: content only grows; while a known-size master is open the destination length is unchanged; whenever an element/Full/End call returns Ok with no known-size master open the destination is walked exactly by the reference decoder guided by the partial tree of everything accepted so far; after flush()/into_inner() the destination decodes to the whole tree with all masters closed.",
          "sink is append-only by construction (io::Write), so retraction is structurally impossible; unknown-size masters are never presented as Full", "DESIGN.md §5 C10"),
  "C19": ("fault_enumeration", "runtime monitor: fault injection of rejected calls at every position of valid call histories, differential against the history without them",
-         "For each generated valid call history every insertion position (all of them in thorough; all for histories <=14 calls in quick) receives failing calls of one of nine kinds (misplaced leaf/master, size not representable in requested width for leaf and Full, unknown size on a leaf via both APIs, malformed raw id, wrong End, Full with an invalid child at depth 1-3, several in a row); per-call results of the original calls, the result of into_inner() and the final destination bytes must equal those of the history without the failing calls.",
+         "For each generated valid call history every insertion position (all of them in thorough; all for histories <=14 calls in quick) receives failing calls of one of ten kinds (misplaced leaf/master, size not representable in requested width for leaf and Full, unknown size on a leaf via both APIs, malformed raw id, wrong End, Full with an invalid child at depth 1-3, several in a row); per-call results of the original calls, the result of into_inner() and the final destination bytes must equal those of the history without the failing calls.",
          "I/O errors are not injected (outside the property); candidates the writer accepts are vacuous", "DESIGN.md §5 C19"),
  "C15": ("exploration", "runtime monitor: differential oracle against an independent reference vint codec, catch_unwind + overflow trapping, exhaustive small widths",
          "Every public vint function in ebml_iterable::tools is called on real inputs and compared with an independent reference codec: exhaustive for unsigned widths <=3 (quick) / <=4 (thorough, 2^28 values) and signed widths <=3, +-2 lattice around every 2^(7k), 2^(7k-1), 2^(8k), random 64-bit values, all byte slices of length <=2 and every first byte x truncation for lengths 3..9. Held = no disagreement and no panic/overflow trap on everything executed.",
@@ -65,6 +65,32 @@ CHECKS = {
  "C16": ("exploration", "runtime monitor: differential oracle against reference payload decoders + real TagWriter output decoded by a reference header decoder",
          "arr_to_u64/arr_to_i64/arr_to_f64 are executed on all slices of length 0..2 and on boundary/random slices up to length 12 and compared with reference decoders under catch_unwind; single-element documents are written by the real TagWriter for lattice and random 64-bit values and the emitted payload must have the minimal 1/2/4/8 width and decode back bit-for-bit.",
          "trusts refcodec.rs; f32 NaN payload propagation through `as f64` is compared by NaN-ness only", "DESIGN.md §5 C16"),
+}
+# additions made after the seeded-change waves 3-5 (appended to the level texts; notes replaced where they changed)
+ADD = {
+ "C01": " Also part of the workload: scale documents (up to 2500 siblings under one master / 700 levels of same-id nesting), unknown size on placeholder masters where what follows ends them unambiguously, giant cases (payload / master content of exactly 2^28-2, 2^28-1, 2^28 bytes compared with the reference layout; two in quick, six in thorough) and one stream longer than 2^32 bytes written through an unknown-size master into a validating sink.",
+ "C02": " A quarter of the first passes buffer a random subset of masters (Full items are written back as such); giant cases carry 2^28-2 .. 2^28 bytes in 5-8 byte size fields and the re-written size field must decode to the same known size.",
+ "C03": " Case 0 of every run parses a generated stream longer than 2^32 bytes (known-size masters > 4 GiB; offsets, payloads and Ends checked arithmetically).",
+ "C04": " Pause runs are also finished by switching end-of-stream closing back on (must equal the closing baseline); the size limit is removed / left at its default on unmutated documents; every reader may have been reconfigured through other setter values first.",
+ "C05": " The injected I/O error is transient and the caller goes on (next() x 24, one try_recover()); a quarter of the sources answer Ok(0) once at arbitrary byte positions and deliver data again on the next read.",
+ "C06": " A fifth of the parses run live-stream style (closing off, pauses at element boundaries, closing switched on at the end); setters are overwritten before use; scale documents included.",
+ "C07": " A third of the random specifications contain masters with placeholders in their path (also placeholder-only paths, nesting in themselves); a fifth of the trees carry elements with ids outside the specification (read with unknown ids tolerated).",
+ "C08": " Scale documents (hundreds to thousands of items inside one buffered master, hundreds of nesting levels of a buffered id) are part of the input mix.",
+ "C10": " Histories may contain calls the writer rejects (judged against the accepted calls only), continue with a second document after a flush() in the middle, leave a master that can never be closed (flush, flush, End, flush, into_inner), or run against a destination whose own flush() fails once.",
+ "C11": " Chain masters with placeholders in their path get unknown size where no later chain master would end them; a mid-document variant renders only the tail of a chain (all unknown-size) followed by an element that ends all of it.",
+ "C12": " The size limit is left at its default, removed (None) or generous.",
+ "C13": " The limit probe uses the default limit or an explicit 2^16 / 2^20 and declared sizes from a lattice around every 2^(7k) above it in every width that can hold them; a third of the single-fault parses go through short-read sources; tolerance lists may repeat entries.",
+ "C14": " A third of the documents mix unknown-size masters in; one insertion in ten lets the source fail once while try_recover() scans (always-clauses only).",
+ "C16": " Untouched zero slices of 2^29 .. 2^29+8 bytes (and 2^32 .. 2^32+8 in thorough) are decoded as well.",
+ "C17": " Every 400th case places the hostile header after a recovery 200-400 KB into the stream; raw ids are 2-8 bytes long.",
+ "C18": " 19 broken classes (incl. placeholder bounds that differ from the parent's); variants are listed in random order in a third of the well-formed and half of the broken declarations.",
+ "C19": " Ten failure kinds; Full children may carry an End of the Full's own id; a quarter of the specifications have placeholder (recursive) masters, which may be the failing Full.",
+ "C20": " Window-edge documents put one big element's end at 65536*k-2 .. 65536*k+1 (k <= 5) behind a few small items.",
+}
+NOTE = {
+ "C07": "masters with a placeholder in their path keep unknown size only where what follows ends them under every reading (nothing, a root element, a declared ancestor; no child that looks like a sibling or ancestor); masters directly followed by a global/raw element are not eligible (ambiguity excluded by the statement)",
+ "C06": "closings of unknown-size placeholder masters that may contain themselves are a don't-care; behaviour after a source I/O error is not judged (not promised by any property)",
+ "C10": "sink is append-only by construction (io::Write), so retraction is structurally impossible; unknown-size masters are never presented as Full; a destination whose write() fails is not exercised (the unchanged writer drops its buffer then; no property covers it)",
 }
 NOT_YET = {}
 ALL = [json.loads(l)["id"] for l in open(os.path.join(V, "properties.jsonl"))]
@@ -77,6 +103,8 @@ def main():
         if pid not in CHECKS:
             continue
         cat, tech, text, note, ref = CHECKS[pid]
+        text = text + ADD.get(pid, "")
+        note = NOTE.get(pid, note)
         checks.append({
             "property_id": pid,
             "quick_cmd": f"./check {pid} quick",
